@@ -200,7 +200,7 @@ impl Property for C17 {
         vec!["documents with duplicate member names are outside the domain (serde_json::Value keeps the last duplicate, typed decoding reports an error)".into()]
     }
     fn cases(tier: Tier) -> u64 {
-        tier.pick(100_000, 2_000_000)
+        tier.pick(400_000, 2_000_000)
     }
     fn strategy(_tier: Tier) -> BoxedStrategy<Spec> {
         (valid_doc(), proptest::option::weighted(0.3, tree_edit()), entropy(), 1u8..8, proptest::option::weighted(0.05, any::<u16>()), proptest::option::weighted(0.12, any::<u8>()))
